@@ -190,7 +190,7 @@ def build_model(pid):
             if f.endswith((".vo", ".glob", ".vok", ".vos")):
                 os.remove(os.path.join(d, f))
         sh(["cp", drv, d])
-        rc, out = sh("ocamlfind ocamlopt -O3 -w -a model.mli model.ml modelrun.ml -o modelrun", cwd=d, timeout=900)
+        rc, out = sh(["bash", "-c", "ulimit -s unlimited 2>/dev/null; ocamlfind ocamlopt -O3 -w -a model.mli model.ml modelrun.ml -o modelrun"], cwd=d, timeout=1800)
         if rc != 0:
             raise SystemExit("ocaml build failed:\n" + out)
         return exe
